@@ -210,7 +210,7 @@ def run_main(argv, want_mininec=False):
         res['kind'] = 'usage'
         res['rc'] = e.code
     except BaseException as e:  # noqa
-        if isinstance(e, KeyboardInterrupt):
+        if isinstance(e, KeyboardInterrupt) or type(e).__name__ == '_Timeout':
             raise
         res['kind'] = 'crash'
         res['exc'] = '%s: %s' % (type(e).__name__, str(e)[:200])
